@@ -32,11 +32,21 @@ _BIN = {ast.Add: operator.add, ast.Sub: operator.sub, ast.Mult: operator.mul, as
         ast.BitXor: operator.xor, ast.Mod: operator.mod, ast.Div: operator.truediv, ast.Pow: operator.pow}
 
 
+class BudgetExceeded(Exception):
+    """an input-declared count drives a loop / allocation beyond the budget proportional to the input size"""
+
+    def __init__(self, count):
+        super().__init__("count exceeds budget")
+        self.count = count
+        self.where = None
+
+
 class Engine:
     def __init__(self, modules=("py7zr.archiveinfo",), intmode="bv", width=80, unroll=8, merge_ifs=False,
                  bytes_domain="vec", solver_timeout_ms=60000, unwind="assert"):
         self.unwind_mode = unwind  # 'assert': hitting the bound is INCONCLUSIVE; 'assume': the path is cut and counted
         self.cut_paths = 0
+        self.count_budget = None
         self.loop_limits = {}  # (module, function qualname) -> (bound, 'assert'|'assume') for its while loops
         self.intmode, self.W, self.unroll, self.merge_ifs, self.bytes_domain = intmode, width, unroll, merge_ifs, bytes_domain
         self.modules = {}  # name -> dict(tree, real, funcs{name:FuncRef}, classes{name:SClass})
@@ -697,6 +707,10 @@ class Engine:
                 ex.where = "%s:%d" % (env.get("__module__"), s.lineno)
                 ex.args = (("%s [at %s]" % (ex.args[0] if ex.args else "", ex.where)),)
             raise
+        except BudgetExceeded as ex:
+            if ex.where is None:
+                ex.where = "%s:%s" % (env.get("__module__"), env.get("__func__"))
+            raise
 
     def _stmt(self, s, env):
         k = type(s)
@@ -868,10 +882,12 @@ class Engine:
                             env[h.name] = ex
                         old = env.get("__exc__")
                         env["__exc__"] = ex
+                        old_cur, self.current_exc = getattr(self, "current_exc", None), ex
                         try:
                             self.block(h.body, env)
                         finally:
                             env["__exc__"] = old
+                            self.current_exc = old_cur
                         break
                 else:
                     raise
@@ -917,21 +933,32 @@ class Engine:
                             return out
                         raise
                 raise Unwind("iterator too long")
+        if isinstance(it, types.GeneratorType):
+            return it
         if hasattr(it, "__iter__") and not is_sym(it):
             return list(it)
         raise Unsupported("iteration over %r" % (it,))
 
     def sym_range(self, n, start=0):
-        """range(n) for symbolic n: forks on the trip count up to the unroll bound (unwinding assertion beyond)"""
-        out = []
-        i = start
+        """range(n) for symbolic n, materialised (forks on the trip count)"""
+        return list(self.lazy_range(n, start))
+
+    def lazy_range(self, n, start=0):
+        """range(n) for symbolic n as a generator: forks on `i < n` before each iteration.  With `count_budget` set, a
+        loop/allocation that can exceed the budget raises BudgetExceeded (resource obligation); otherwise the unrolling
+        bound applies (unwinding assertion)."""
+        i, k = start, 0
         while True:
             if not self.branch(self.compare(ast.Lt(), i, n)):
-                return out
-            if len(out) >= self.unroll:
+                return
+            if self.count_budget is not None:
+                if k >= self.count_budget:
+                    raise BudgetExceeded(n)
+            elif k >= self.unroll:
                 raise Unwind("range() needs more than %d iterations" % self.unroll)
-            out.append(i)
+            yield i
             i += 1
+            k += 1
 
     def assign(self, t, v, env):
         k = type(t)
